@@ -43,6 +43,14 @@ CHECKS = {
          "Sequential part exhaustive over the stated alphabet by state graph (not by history) plus all histories to depth 3-4 and "
          "walks to 8; concurrent part validates only schedules that occurred in the stress runs; TLC and the harness projection are trusted.",
          "TLA+ sequential spec + TLC state-graph replay on the real object; TLC linearizability search over recorded concurrent histories (trace validation)"),
+ "C13": ("model_checking",
+         "TLC checks monotonicity, the watermark equation, late-iff-below-watermark, exactly-once placement and the statistics "
+         "identities on all offer sequences of <=8 events; the complete (config, watermark, max) graph is replayed transition by "
+         "transition, with all short sequences, walks and simulated 12-offer behaviours, on the real WatermarkedStream.",
+         "DESIGN.md §4 C13",
+         "Timestamps 0..6, delays {0,1,2,4}, lateness {0,1,2}, all four late-data strategies; wall-clock watermark strategies "
+         "(Periodic/Custom) are outside the statement; TLC and the harness projection are trusted.",
+         "TLA+ state-machine spec, complete TLC state-graph replayed on the real object (transition cover + all short histories + walks + simulated behaviours)"),
 }
 
 NOT_YET = "check not built yet in this round (see DESIGN.md §9 build order); no claim is made"
